@@ -330,10 +330,15 @@ func (cluH) Generate(property string, seed uint64, tier string) *Case {
 			if property == "C12" && g.IntN(2) == 0 {
 				op = genCreate(g, &cfg, property)
 			}
-			if (property == "C13" || property == "C12" || property == "C10") && op.Kind == "create" && g.IntN(8) == 0 {
+			if property == "C11" && g.IntN(6) == 0 {
+				// more capacity changes than the general mix has: a failed set-node has to put
+				// back capacities that earlier changes made uneven
+				op = cluOp{Kind: "set_node", Node: g.IntN(len(cfg.Nodes)), Delta: true, CapCPU: 1 + g.IntN(2), Bypass: g.IntN(3)}
+			}
+			if (property == "C13" || property == "C12") && op.Kind == "create" && g.IntN(8) == 0 {
 				op.ClientGone = 1 + g.IntN(2)
 			}
-			if (property == "C13" || property == "C12" || property == "C11" || property == "C10") && op.Kind == "create" && g.IntN(8) == 0 {
+			if (property == "C13" || property == "C12") && op.Kind == "create" && g.IntN(8) == 0 {
 				// machines on which creating a container takes minutes (a large image to fetch):
 				// the deployment as a whole then runs longer than any of the timeouts it sets
 				op.Secs = 200 + g.IntN(250)
